@@ -1,0 +1,25 @@
+//go:build verif
+
+package signedexchange
+
+// Contracts for govc (comment-only; compiled only with -tags verif).
+
+// entriesOK(es): a list of map entries ready for the map encoder: every
+// entry freshly written and never read, pairwise distinct objects.
+//@ def entriesFresh(es []*cbor.MapEntryEncoder) bool = forall k int :: 0 <= k && k < len(es) ==> entryFresh(es[k])
+//@ def entriesDistinct(es []*cbor.MapEntryEncoder) bool = forall a int, b int :: {es[a], es[b]} 0 <= a && a < b && b < len(es) ==> es[a] != es[b]
+
+// encodeHeaders appends one entry per header field; the entries it adds are
+// objects allocated here.
+//@ func encodeHeaders
+//@   props C08 C19
+//@   requires entriesFresh(encs) && entriesDistinct(encs)
+//@   ensures entriesFresh(result) && entriesDistinct(result) && len(result) >= len(encs)
+//@   ensures forall k int :: 0 <= k && k < len(encs) ==> result[k] == encs[k]
+//@   ensures forall k int :: len(encs) <= k && k < len(result) ==> fresh(result[k])
+//@   assigns elems(encs)
+//@   loop 0:
+//@     invariant entriesFresh(encs) && entriesDistinct(encs) && len(encs) >= old(len(encs))
+//@     invariant forall k int :: 0 <= k && k < old(len(encs)) ==> encs[k] == old(encs[k]) && entry(encs)[k] == old(encs[k])
+//@     invariant forall k int :: old(len(encs)) <= k && k < len(encs) ==> fresh(encs[k])
+//@     invariant fresh(encs) || base(encs) == old(base(encs))
